@@ -935,6 +935,15 @@ pub(crate) fn m_link_footnotes() {
     }
     let off = crate::config::plain().link_footnotes(false).string_from_read(html, 80).expect("renders");
     assert!(!off.contains("][") && !off.contains("]: "), "references although disabled: {:?}", off);
+    // every link is recorded, also when neighbouring links share a target
+    let dup: &[u8] = b"<p><a href=\"same\">aa</a> <a href=\"same\">bb</a> <a href=\"other\">cc</a> <a href=\"same\">dd</a></p>";
+    let out = crate::config::plain().link_footnotes(true).string_from_read(dup, 80).expect("renders");
+    for (k, w) in ["aa", "bb", "cc", "dd"].iter().enumerate() {
+        let marker = format!("{}][{}]", w, k + 1);
+        assert!(out.contains(&marker), "reference {:?} missing in {:?}", marker, out);
+    }
+    assert!(out.contains("[1]: same") && out.contains("[2]: same") && out.contains("[3]: other") && out.contains("[4]: same"),
+            "footnote list does not have one entry per link: {:?}", out);
 }
 
 /// Links whose content sits in a transparent container keep their text; links without content leave no reference.
@@ -945,6 +954,11 @@ pub(crate) fn m_shallow_empty() {
     assert!(out.contains("aa") && out.contains("bb"), "link text lost: {:?}", out);
     assert!(out.contains("[1]: u1"), "footnote of the link with content missing: {:?}", out);
     assert!(!out.contains("u2") && !out.contains("u3"), "an empty link left a footnote: {:?}", out);
+    // text that is only whitespace is no content either
+    let ws: &[u8] = b"<p>x <a href=\"w1\"> </a> y <a href=\"w2\">\n</a> <a href=\"w3\">real</a></p>";
+    let out = crate::config::plain().link_footnotes(true).string_from_read(ws, 80).expect("renders");
+    assert!(!out.contains("w1") && !out.contains("w2"), "a whitespace-only link left a footnote: {:?}", out);
+    assert!(out.contains("real][1]") && out.contains("[1]: w3"), "numbering disturbed by empty links: {:?}", out);
 }
 
 /// Every line of a prefixed block carries the prefix, including blank lines between its paragraphs.
